@@ -17,7 +17,11 @@ RULE = ('E1 breadth-first search to fixpoint over dispatch / disable / enable '
         'F faults.  Global exactly-once-in-order ledger; step budget for '
         'termination.  Non-trivial = release with a backlog, a raise or a '
         'nested disable during a release, retry after an aborted release, '
-        'listener set changed between dispatch and release.')
+        'listener set changed between dispatch and release.  Second part (E2): '
+        'every sequence of <= 4 direct SimpleLoop.switch(handle, clear_current, '
+        'clear_next) calls over two handles whose worlds load disabled with '
+        'two queued events: the world entered is the handle content, enabled, '
+        'and has delivered exactly its own events once, in order.')
 
 EVENTS = ('e', 'f')
 
@@ -99,6 +103,25 @@ class DeferDriver:
     def initial(self):
         ctx = Ctx()
         ctx.hits = collections.Counter()
+        # isolation probe: an event held by one dispatcher is its own - a
+        # fresh dispatcher that is enabled neither delivers nor swallows it
+        ctx.plan, ctx.fired, ctx.injected, ctx.keep = {}, [], [], []
+        ctx.log = []
+        other = desper.EventDispatcher()
+        witness = L1('other', ctx)
+        other.add_handler(witness)
+        other.dispatch_enabled = False
+        token = Payload(0)
+        other.dispatch('e', token)
+        fresh = desper.EventDispatcher()
+        fresh.dispatch_enabled = True
+        other.dispatch_enabled = True
+        if ctx.log != [('other', 'e', token)]:
+            raise Violation(
+                'dispatchers_hold_their_own_events',
+                f'an event queued in one disabled dispatcher was delivered '
+                f'{ctx.log} after an unrelated fresh dispatcher had been '
+                f'enabled', isolation=True)
         ctx.d = desper.EventDispatcher()
         ctx.listeners = {'L1': L1('L1', ctx), 'L2': L2('L2', ctx)}
         ctx.registered = set()
@@ -358,6 +381,78 @@ class DeferDriver:
                 tuple(sorted(ctx.registered)))
 
 
+# -- SimpleLoop.switch releases the world that is entered (loop.py anchor) ----
+@desper.event_handler(e='on_e')
+class Witness:
+    def __init__(self):
+        self.got = []
+
+    def on_e(self, payload):
+        self.got.append(payload)
+
+
+class QueuedWorldHandle(desper.Handle):
+    """Loads a world that is disabled and already holds two events."""
+
+    def __init__(self, name):
+        self.name = name
+        self.loads = 0
+
+    def load(self):
+        self.loads += 1
+        world = desper.World()
+        world.dispatch_enabled = False
+        world.witness = Witness()
+        world.add_handler(world.witness)
+        world.expected = [f'{self.name}{self.loads}-1', f'{self.name}{self.loads}-2']
+        for payload in world.expected:
+            world.dispatch('e', payload)
+        return world
+
+
+def run_loop_switch(case):
+    handles = [QueuedWorldHandle('a'), QueuedWorldHandle('b')]
+    loop = desper.SimpleLoop(lambda: 0.0)
+    hits = {}
+    seen = []
+    for step, (target, cc, cn) in enumerate(case):
+        handle = handles[target]
+        before = handle() if handle.cached else None
+        current = loop.current_world_handle
+        try:
+            loop.switch(handle, bool(cc), bool(cn))
+        except Exception as exc:
+            raise Violation('loop_switch_raised', f'{case}: {exc!r}')
+        world = handle()
+        fresh = world is not before
+        if cn or (cc and current is handle):
+            hits['switch_reloads_target'] = 1
+            if not fresh and before is not None:
+                raise Violation('clear_flag_reloads', f'{case} step {step}')
+        if loop.current_world is not world:
+            raise Violation('loop_enters_the_handle_content',
+                            f'{case} step {step}: current_world is not the '
+                            f'world the handle yields', reload=fresh)
+        if not world.dispatch_enabled or world.witness.got != world.expected:
+            raise Violation(
+                'entered_world_is_released',
+                f'{case} step {step}: the world entered has dispatch_enabled='
+                f'{world.dispatch_enabled} and delivered '
+                f'{world.witness.got}, queued at load {world.expected}',
+                reload=fresh and before is not None,
+                enabled=bool(world.dispatch_enabled))
+        seen.append(world)
+    return {'calls': len(case), 'hits': hits, 'key': repr(case)}
+
+
+def loop_switch_cases(n_max):
+    steps = [(t, cc, cn) for t in (0, 1) for cc in (0, 1) for cn in (0, 1)]
+    out = []
+    for n in range(1, n_max + 1):
+        out.extend(itertools.product(steps, repeat=n))
+    return out
+
+
 def drivers(tier):
     if tier == 'quick':
         return {'defer': (DeferDriver(max_queue=4, max_faults=1),
@@ -388,9 +483,20 @@ def run(tier, rep):
                      queued_without_listener=1)
     for name, (driver, kw) in drivers(tier).items():
         kernel.explore(driver, rep, part=name, params=driver.params(), **kw)
+    rep.require_hits(switch_reloads_target=1)
+    kernel.enumerate_cases(run_loop_switch,
+                           loop_switch_cases(3 if tier == 'quick' else 4),
+                           rep, 'loop-switch-releases', chunk=100,
+                           params=dict(handles=2, flags='cc x cn'))
 
 
 def replay(rec):
+    if rec['part'] == 'loop-switch-releases':
+        try:
+            run_loop_switch(kernel.totuple(rec['case']))
+        except Violation as v:
+            return v
+        return None
     for tier in ('thorough', 'quick'):
         ds = drivers(tier)
         if rec['part'] in ds:
